@@ -26,6 +26,8 @@ mod c12;
 mod c14;
 mod c15;
 mod tail;
+#[allow(dead_code)]
+mod userabc;
 mod c16;
 mod c19;
 
